@@ -421,6 +421,13 @@ def cmd_check(args):
         for hook in hooks:
             import kani_driver
             extra_results.append(kani_driver.run(hook, scratch, tier))
+        if tier == "thorough":
+            # the trusted prelude is cross-checked against the real dependencies (a differential test, not a proof)
+            import crosscheck_driver
+            xr = crosscheck_driver.run(scratch)
+            xr["obligations"] = 0
+            xr["violations"] = []
+            extra_results.append(xr)
         rc = report(pid, pc, tier, seed, results, extra_results, time.time() - t0)
     finally:
         shutil.rmtree(scratch, ignore_errors=True)
@@ -536,10 +543,27 @@ def report(pid, pc, tier, seed, results, extra_results, wall):
         if r["status"] != "failed":
             continue
         g = r["g"]
+        # functions whose proof annotations (hints, closure / loop annotations) no longer attach to the code on this
+        # tree: their proof could not be replayed, so a failure inside them is UNDECIDED (exit 2), never an alarm
+        lost_fns = {}
+        for l in g.lost:
+            # only PROOF HINTS count here (a hint that could not be placed even by following the diff, or that no
+            # longer type-checks).  A contract annotation whose construct is gone (a closure, a loop, a comparison
+            # that no longer exists in that form) is different: the clauses that depended on it are checked without it
+            # and reported if they fail (an obligation that held on the unchanged tree and now fails).
+            if l.get("kind") == "hint":
+                lost_fns.setdefault(l.get("where", ""), []).append(l.get("anchor", ""))
+        def _lost(fn, what):
+            if fn in lost_fns:
+                undecided.append({"group": g.name, "reason": "proof annotations of %s no longer attach to the code (lost anchor %r): %s is not decided" % (fn, lost_fns[fn][0][:60], what)})
+                return True
+            return False
         for f in r["fails"]:
             if f["clauses"]:
                 for cid in f["clauses"]:
                     if cid in g.clauses and pid in g.clauses[cid]["props"]:
+                        if _lost(g.clauses[cid]["fn"], "clause " + cid) or any(_lost(x["fn"], "clause " + cid) for x in f["src"]):
+                            continue
                         # a failed *assumed* clause is a precondition of a callee stub that a verified caller
                         # in this group does not establish: attribute it to the caller if it belongs to the property
                         if g.clauses[cid].get("assumed"):
@@ -550,6 +574,8 @@ def report(pid, pc, tier, seed, results, extra_results, wall):
             elif f["src"] or f.get("hint_src"):
                 fn = (f["src"] or f["hint_src"])[0]["fn"]
                 if fn in fn_of_prop:
+                    if _lost(fn, "an implicit obligation in its body"):
+                        continue
                     body_fail.append((fn, f, g))
             else:
                 internal.append((g.name, f))
@@ -626,18 +652,20 @@ def report(pid, pc, tier, seed, results, extra_results, wall):
             "checker_cmd": " ; ".join(cmds + [e.get("cmd", "") for e in extra_results]),
             "trusted_base": trusted,
             "explanation": pc.get("explanation", ""),
-            "backend": "verus 0.2026.09.13 / z3" + (" + kani 0.68 / cbmc" if extra_results else ""),
+            "backend": "verus 0.2026.09.13 / z3" + (" + kani 0.68 / cbmc" if any(e.get("name") in ("contract_wrapper", "encode_length") for e in extra_results) else "") + (" + cargo test (prelude cross-check, a differential test)" if any(e.get("name") == "prelude_crosscheck" for e in extra_results) else ""),
             "labelled_clauses": len(my_clauses),
             "verus_verified_items": verified_items,
             "functions_under_contract": functions,
             "per_function_smt": sorted(per_fn_time, key=lambda x: -x["smt_s"])[:40],
             "rewrites": rewrites[:200],
             "lost_optional_anchors": lost,
+            "hints_reanchored_by_diff": [x for r0 in results if r0.get("g") is not None for x in getattr(r0["g"], "reanchored", [])],
             "vacuity_canaries": canaries,
             "unspecified_std_functions": havocs,
             "not_covered": pc.get("not_covered", []),
             "spec_sha256": spec_hashes,
-            "kani": kani_ev,
+            "kani": [k for k in kani_ev if k.get("name") != "prelude_crosscheck"],
+            "prelude_crosscheck": [k for k in kani_ev if k.get("name") == "prelude_crosscheck"],
             "proof_stability": EXTRA_EVIDENCE.get("proof_stability", []),
             "negative_controls": EXTRA_EVIDENCE.get("negative_controls", []),
             "status": status,
@@ -694,5 +722,25 @@ def main():
     return 2
 
 
+def write_baseline():
+    """VX_WRITE_BASELINE=1: record the text of every function under contract as it is on this tree (the tree the
+    proofs were written against) in baseline/functions.json; lost hint anchors are later re-placed by a line diff
+    against these texts."""
+    import assemble as _a
+    if not _a.BASELINE_OUT:
+        return
+    bp = os.path.join(VERIF, "baseline", "functions.json")
+    os.makedirs(os.path.dirname(bp), exist_ok=True)
+    cur = {}
+    if os.path.exists(bp):
+        cur = json.load(open(bp))
+    cur.update(_a.BASELINE_OUT)
+    json.dump(cur, open(bp, "w"), indent=0, sort_keys=True)
+    print("baseline: %d function texts recorded in %s" % (len(cur), bp))
+
+
 if __name__ == "__main__":
-    sys.exit(main())
+    rc = main()
+    if os.environ.get("VX_WRITE_BASELINE"):
+        write_baseline()
+    sys.exit(rc)
